@@ -248,7 +248,7 @@ theorem nestedSet_container (env : Env) (pb : Val → Bool) (path : List PKey) :
         | (injection h with h; rw [← h]; rfl)
     | cons t ts =>
       simp only [nestedSet] at h
-      split at h <;> (try (split at h)) <;> (try (split at h)) <;>
+      split at h <;> (try (split at h)) <;> (try (split at h)) <;> (try (split at h)) <;>
         first
         | (cases h; done)
         | (injection h with h; rw [← h]; rfl)
@@ -297,7 +297,9 @@ theorem nestedSet_fix (env : Env) (pb : Val → Bool) (path : List PKey) :
                     rw [← hfields]; exact h2
                   exact dict_fix_of_conforms env fs f hf hd' d'.kvs hc' hs'
             | cons t ts =>
-              simp only [nestedSet, boundSpec] at h
+              have hfa : frozenAt env (.dict (some fs) f) (.dict kvs) = false := by
+                simp [frozenAt, boundSpec, Spec.flags, hf]
+              simp only [nestedSet, boundSpec, hfa, Bool.false_eq_true, if_false] at h
               cases hl : lookup kvs k with
               | none => simp [hl] at h
               | some c =>
